@@ -150,7 +150,7 @@ class Explorer:
         return z3.Const(nm, sort)
 
     # ------------------------------------------------------------------ choices
-    def choose(self, conds: List[Any], labels: Optional[List[str]] = None) -> int:
+    def choose(self, conds: List[Any], labels: Optional[List[str]] = None, free: bool = False) -> int:
         """Fork over mutually exclusive alternatives `conds` (z3 Bool terms)."""
         simp = [z3.simplify(c) for c in conds]
         live = [i for i, c in enumerate(simp) if not z3.is_false(c)]
@@ -166,8 +166,13 @@ class Explorer:
         if self.split_depth is not None and len(self.trail) >= self.split_depth:
             raise SplitPoint()
         feas = []
+        from .smt import _has_fp
+        lazy = free or any(_has_fp(simp[i]) for i in live)
         for i in live:
-            if z3.is_true(simp[i]):
+            if z3.is_true(simp[i]) or lazy:
+                # free environment choices are always feasible; floating-point branch conditions are not checked
+                # for feasibility here (bit-blasted fract/round queries take minutes): both sides are explored,
+                # which can only add paths, and anything found on such a path must still reproduce natively
                 feas.append(i)
                 continue
             r = self.check(simp[i])
@@ -194,7 +199,7 @@ class Explorer:
         if n == 1:
             return 0
         v = self.fresh(name, 8)
-        return self.choose([v == i for i in range(n - 1)] + [z3.UGE(v, n - 1)])
+        return self.choose([v == i for i in range(n - 1)] + [z3.UGE(v, n - 1)], free=True)
 
     # ------------------------------------------------------------------ driver
     def run(self, entry: Callable[['Explorer'], Any], on_path: Callable[['Explorer', Any, str], None],
@@ -271,6 +276,8 @@ class Explorer:
             return v.fields[p]
         if isinstance(v, Vec):
             return v.elems[p]
+        if isinstance(v, Closure):
+            return v.captures[p]
         if isinstance(v, (BoxV,)):
             # Box<T>.0 is Unique<T>, .0 of that is NonNull<T>: both are "the pointer"
             if p == 0:
@@ -291,6 +298,10 @@ class Explorer:
             e = list(cur.elems)
             e[p] = self._store_path(e[p], path[1:], val)
             return Vec(tuple(e), cur.ety)
+        if isinstance(cur, Closure):
+            c = list(cur.captures)
+            c[p] = self._store_path(c[p], path[1:], val)
+            return Closure(cur.fn, cur.tyname, tuple(c), cur.capnames)
         if cur is UNINIT or cur is MOVED or cur is None:
             raise Unsupported('field store into uninitialised aggregate')
         raise Unsupported('store path into %r' % (cur,))
@@ -339,9 +350,15 @@ class Explorer:
             return 'Arc<%s>' % self.rtype(v.cell.v.value)
         if isinstance(v, Closure):
             return v.tyname
+        if isinstance(v, FnItem):
+            return 'fn-item'
         if isinstance(v, Unit):
             return '()'
         raise Unsupported('runtime type of %r' % (v0,))
+
+    def prog_has_variant(self, ename, vname) -> bool:
+        vs = enum_variants(self.prog, ename)
+        return bool(vs) and vname in vs
 
     # ------------------------------------------------------------------ drop glue
     def drop_value(self, v):
@@ -517,10 +534,10 @@ class Frame:
             inner = self.const(m.group(1))
             return _int_cast(inner, m.group(2))
         # float constants like 1f64 / 0.5f64
-        m = re.match(r'^(-?[0-9.eE+-]+|inf|-inf|NaN)f64$', c)
+        m = re.match(r'^(-?[0-9][0-9_.eE+-]*|inf|-inf|NaN)f64$', c)
         if m:
             import struct
-            bits = struct.unpack('<Q', struct.pack('<d', float(m.group(1))))[0]
+            bits = struct.unpack('<Q', struct.pack('<d', float(m.group(1).replace('_', ''))))[0]
             return Float(z3.BitVecVal(bits, 64))
         # named constants: evaluate the const item
         return self.named_const(c)
@@ -535,6 +552,12 @@ class Frame:
             return mk_int((1 << 64) - 1, 'u64')
         # unit struct / unit variant constants are written without 'const' normally; handle a few
         cands = [n for n, f in prog.funcs.items() if f.kind in ('const', 'constval', 'promoted') and _const_name_match(n, c)]
+        pm = re.search(r'::([A-Za-z_0-9]+)(?:::<.*>)?::(promoted\[\d+\])$', c)
+        if not cands and pm:
+            # `<Type as Trait>::method::<G>::promoted[0]`: the promoted of the function this frame executes
+            own = self.f.name.split('#')[0] + '::' + pm.group(2)
+            if own in prog.funcs:
+                cands = [own]
         if len(cands) == 1:
             f = prog.funcs[cands[0]]
             if f.kind == 'constval':
@@ -607,7 +630,14 @@ class Frame:
                 # enum struct-like variants are not used in these crates
                 return Agg('struct', name, None, tuple(self.operand(o) for _, o in items))
             if akind == 'ctor':
-                return _ctor_value(ex, strip_generics(path), [self.operand(o) for o in items])
+                pth = strip_generics(path)
+                if '::' not in pth and getattr(self, 'dest_ty', None):
+                    # const bodies print enum values by their variant name only; the local's type says which enum
+                    dty = strip_generics(self.dest_ty)
+                    vs = STD_ENUMS.get(dty.split('::')[-1]) or enum_variants(ex.prog, dty.split('::')[-1]) or []
+                    if 'io::ErrorKind' in dty or 'io::error::ErrorKind' in dty or pth in vs:
+                        pth = dty + '::' + pth
+                return _ctor_value(ex, pth, [self.operand(o) for o in items])
         if k == 'len':
             v = self.read_place(rv.args[0])
             if isinstance(v, Vec):
@@ -624,6 +654,29 @@ class Frame:
             if isinstance(v, Bool):
                 v = Int(z3.If(v.t, z3.BitVecVal(1, 8), z3.BitVecVal(0, 8)), 'u8')
             return _int_cast(v, ty.strip())
+        if kind == 'FloatToInt':
+            if not isinstance(v, Float) or ty.strip() not in INT_TYPES:
+                raise Unsupported('FloatToInt cast of %r to %s' % (v, ty))
+            bits, signed = INT_TYPES[ty.strip()]
+            f = z3.fpBVToFP(v.bits, z3.Float64())
+            # Rust `as`: NaN -> 0, saturating at the bounds, otherwise truncation toward zero
+            if signed:
+                lo, hi = -(1 << (bits - 1)), (1 << (bits - 1)) - 1
+                conv = z3.fpToSBV(z3.RTZ(), f, z3.BitVecSort(bits))
+            else:
+                lo, hi = 0, (1 << bits) - 1
+                conv = z3.fpToUBV(z3.RTZ(), f, z3.BitVecSort(bits))
+            flo = z3.fpSignedToFP(z3.RTZ(), z3.BitVecVal(lo, bits + 1), z3.Float64()) if signed else z3.FPVal(0.0, z3.Float64())
+            fhi = z3.FPVal(float(hi + 1), z3.Float64())
+            t = z3.If(z3.fpIsNaN(f), z3.BitVecVal(0, bits),
+                      z3.If(z3.fpLEQ(f, flo), z3.BitVecVal(lo, bits),
+                            z3.If(z3.fpGEQ(f, fhi), z3.BitVecVal(hi, bits), conv)))
+            return Int(t, ty.strip())
+        if kind == 'IntToFloat':
+            if not isinstance(v, Int) or ty.strip() != 'f64':
+                raise Unsupported('IntToFloat cast of %r to %s' % (v, ty))
+            f = z3.fpSignedToFP(z3.RNE(), v.t, z3.Float64()) if v.signed else z3.fpUnsignedToFP(z3.RNE(), v.t, z3.Float64())
+            return Float(z3.fpToIEEEBV(f))
         if kind.startswith('PointerCoercion') or kind in ('Transmute', 'PtrToPtr', 'Subtype'):
             if kind == 'Transmute' and not isinstance(v, (Ref, BoxV, ArcV, Native)):
                 raise Unsupported('transmute of %r' % (v,))
@@ -638,6 +691,8 @@ class Frame:
                 return Bool(z3.Not(a.t))
             return Int(~a.t, a.ty)
         if op == 'Neg':
+            if isinstance(a, Float):
+                return Float(a.bits ^ z3.BitVecVal(1 << 63, 64))
             return Int(-a.t, a.ty)
         if op == 'PtrMetadata':
             a = self.ex.deref_all(a) if isinstance(a, Ref) else a
@@ -661,8 +716,32 @@ class Frame:
                 return Bool(z3.Or(a.t, b.t))
             if op == 'BitXor':
                 return Bool(z3.Xor(a.t, b.t))
+        if isinstance(a, Float) and isinstance(b, Float):
+            fa, fb = z3.fpBVToFP(a.bits, z3.Float64()), z3.fpBVToFP(b.bits, z3.Float64())
+            if op == 'Eq':
+                return Bool(z3.fpEQ(fa, fb))
+            if op == 'Ne':
+                return Bool(z3.Not(z3.fpEQ(fa, fb)))
+            if op == 'Lt':
+                return Bool(z3.fpLT(fa, fb))
+            if op == 'Le':
+                return Bool(z3.fpLEQ(fa, fb))
+            if op == 'Gt':
+                return Bool(z3.fpGT(fa, fb))
+            if op == 'Ge':
+                return Bool(z3.fpGEQ(fa, fb))
+            rm = z3.RNE()
+            if op == 'Add':
+                return Float(z3.fpToIEEEBV(z3.fpAdd(rm, fa, fb)))
+            if op == 'Sub':
+                return Float(z3.fpToIEEEBV(z3.fpSub(rm, fa, fb)))
+            if op == 'Mul':
+                return Float(z3.fpToIEEEBV(z3.fpMul(rm, fa, fb)))
+            if op == 'Div':
+                return Float(z3.fpToIEEEBV(z3.fpDiv(rm, fa, fb)))
+            raise Unsupported('floating-point operation ' + op)
         if isinstance(a, Float) or isinstance(b, Float):
-            raise Unsupported('floating-point operation %s (floats are opaque bit patterns in this encoding)' % op)
+            raise Unsupported('mixed floating-point operation %s' % op)
         if not (isinstance(a, Int) and isinstance(b, Int)):
             raise Unsupported('binop %s on %r, %r' % (op, a, b))
         x, y, s, bits = a.t, b.t, a.signed, a.bits
@@ -767,6 +846,7 @@ class Frame:
                     continue
                 if st.kind == 'assign':
                     try:
+                        self.dest_ty = f.locals.get(st.place.local) if not st.place.proj else None
                         self.write_place(st.place, self.rvalue(st.rvalue))
                     except Unsupported as e:
                         raise Unsupported('%s  [at `%s` in %s]' % (e, st.text.strip(), f.name)) from None
@@ -980,6 +1060,11 @@ def _const_name_match(item_name: str, ref: str) -> bool:
     return False
 
 
+IO_ERROR_KINDS = {n: i for i, n in enumerate([
+    'Other', 'Interrupted', 'WouldBlock', 'NotFound', 'PermissionDenied', 'ConnectionRefused', 'ConnectionReset', 'ConnectionAborted',
+    'NotConnected', 'AddrInUse', 'AddrNotAvailable', 'BrokenPipe', 'AlreadyExists', 'InvalidInput', 'InvalidData', 'TimedOut',
+    'WriteZero', 'Unsupported', 'UnexpectedEof', 'OutOfMemory', 'HostUnreachable', 'NetworkUnreachable', 'NetworkDown', 'Uncategorized'])}
+
 # Enum tables: name -> [variants in declaration order]; discovered lazily from source for crate enums.
 STD_ENUMS = {
     'Option': ['None', 'Some'],
@@ -994,6 +1079,8 @@ def _ctor_value(ex: Explorer, path: str, args: List[Any]):
     """Path like 'Option::Some', 'MetricValue::Signed', 'MetricType::Counter', 'Counter' (tuple struct)."""
     segs = path.split('::')
     name = segs[-1]
+    if 'io::ErrorKind' in path or path.startswith('std::io::error::ErrorKind') or (len(segs) >= 2 and segs[-2] == 'ErrorKind' and name in IO_ERROR_KINDS and not ex.prog_has_variant('ErrorKind', name)):
+        return Native('ErrorKind', z3.BitVecVal(IO_ERROR_KINDS.get(name, 250), 8))
     if len(segs) >= 2 and segs[-2][:1].isupper():
         ename = segs[-2]
         variants = STD_ENUMS.get(ename) or enum_variants(ex.prog, ename)
@@ -1142,6 +1229,8 @@ def dispatch(ex: Explorer, frame: Frame, callee: str, args: List[Any]):
         generic_self = bool(re.match(r'^(Self|[A-Z][A-Za-z0-9]?|<.*>|dyn .*|impl .*)$', ty.strip())) and tyk not in ('Vec', 'Box', 'Arc', 'String', 'Option', 'Result')
         # receiver-driven dispatch for generic / dyn Self
         if generic_self and args:
+            if method in ('call', 'call_mut', 'call_once') and isinstance(ex.deref_all(args[0]) if isinstance(args[0], Ref) else args[0], (Closure, FnItem)):
+                return call_closure(ex, ex.deref_all(args[0]) if isinstance(args[0], Ref) else args[0], args)
             if method in ('from', 'default', 'new') and not isinstance(args[0], (Ref, Native, Agg, BoxV, ArcV)):
                 recv_ty = None
             else:
@@ -1161,7 +1250,7 @@ def dispatch(ex: Explorer, frame: Frame, callee: str, args: List[Any]):
                     if fn is not None:
                         ex.stats.env_calls.add('%s::%s on %s' % (tr, method, v0.rty))
                         return fn(ex, args, callee)
-                if isinstance(v0, Closure) and method in ('call', 'call_mut', 'call_once'):
+                if isinstance(v0, (Closure, FnItem)) and method in ('call', 'call_mut', 'call_once'):
                     return call_closure(ex, v0, args)
                 name = prog.find_impl_method(method, recv_ty, tr, type_key(targs) if targs else None)
                 if name is None and tr is not None:
@@ -1218,8 +1307,35 @@ def _is_crate_type(prog: Program, tyk: str) -> bool:
     return any(strip_generics(i.self_ty) == t for i in prog.impl_of.values())
 
 
-def call_closure(ex: Explorer, clo: Closure, args: List[Any]):
+def call_callable(ex: Explorer, fv, params: List[Any]):
+    """Call a closure / fn item / boxed callable value with positional parameters."""
+    target = fv
+    holder = None
+    while isinstance(target, (Ref, BoxV)):
+        holder = target
+        target = ex.load(target) if isinstance(target, Ref) else target.cell.v
+    tup = Agg('tuple', '', None, tuple(params)) if params else UNIT
+    if isinstance(target, Closure):
+        return call_closure(ex, target, [holder if isinstance(holder, Ref) else target, tup])
+    if isinstance(target, FnItem):
+        name = target.name
+        m = re.match(r'^fn\(.*\)(?: -> .*)? \{(.*)\}$', name)
+        if m:
+            name = m.group(1)
+        return dispatch(ex, None, name, list(params))
+    if isinstance(target, Native):
+        h = ex.natives.get(target.rty, {}).get('Fn::call')
+        if h is not None:
+            ex.stats.env_calls.add('Fn::call on ' + target.rty)
+            return h(ex, [target, tup], 'call')
+    raise Unsupported('call of %r' % (target,))
+
+
+def call_closure(ex: Explorer, clo, args: List[Any]):
     """args = [closure-or-ref, args_tuple]"""
+    if not isinstance(clo, Closure):
+        tup0 = args[1]
+        return call_callable(ex, clo, list(tup0.fields) if isinstance(tup0, Agg) else ([] if isinstance(tup0, Unit) else [tup0]))
     f = ex.prog.funcs[clo.fn]
     tup = args[1]
     params = list(tup.fields) if isinstance(tup, Agg) else ([] if isinstance(tup, Unit) else [tup])
